@@ -573,6 +573,17 @@ func TestSig(l *SigLine) []SigDiv {
 					if !eqStrings(in, wantIn) || !eqStrings(out, wantOut) {
 						add("info", fmt.Sprintf("ProvideInfo want in=%q out=%q got in=%q out=%q", wantIn, wantOut, in, out))
 					}
+					if l.O.Loc != "" && state == 0 {
+						// the ID identifies the function, whatever location it is reported under
+						var plain dig.ProvideInfo
+						o2 := l.O
+						o2.Loc = ""
+						c2, a2, _ := seedContainer(0)
+						if err := a2.Provide(val, append(sigProvideOpts(o2, nil), dig.FillProvideInfo(&plain))...); err == nil && plain.ID != pi.ID {
+							add("info.id", fmt.Sprintf("the same function has ID %d with LocationForPC and %d without", pi.ID, plain.ID))
+						}
+						_ = c2
+					}
 				} else {
 					if pi.ID != -12345 || !untouched(pi.Inputs, pi.Outputs) {
 						add("info.onreject", "ProvideInfo written by a rejected Provide")
